@@ -72,6 +72,21 @@ Theorem trace_order : forall cs f,
 Proof. exact DiagProofs.trace_order. Qed.
 Print Assumptions trace_order.
 
+(* ONE trace entry per active call: the length of the trace is the call depth + 1, and a function that recursed d times
+   through one call instruction contributes d identical adjacent frames -- a deduplicating extend_trace contradicts this *)
+Theorem trace_matches_call_stack : forall cs f,
+    exists t, fault_at (run_events (map ECall cs)) f = Uncaught t
+              /\ length t = S (length cs)
+              /\ (forall c d, cs = repeat c d -> t = f :: repeat c d).
+Proof. exact DiagProofs.trace_matches_call_stack. Qed.
+Print Assumptions trace_matches_call_stack.
+
+Theorem dedup_trace_refuted : exists cs f t,
+    fault_at (run_events (map ECall cs)) f = Uncaught t /\ dedup_adjacent t <> t
+    /\ (length (dedup_adjacent t) < S (length cs))%nat.
+Proof. exact DiagProofs.dedup_trace_refuted. Qed.
+Print Assumptions dedup_trace_refuted.
+
 (* a `try` entered in some frame: the frames above it are unwound (innermost first) and the error is caught there *)
 Theorem trace_caught : forall cs1 cs2 f,
     fault_at (run_events (map ECall cs1 ++ ETry :: map ECall cs2)) f = Caught (f :: rev cs2).
